@@ -30,6 +30,27 @@ def main():
                 except Exception as exc:     # noqa: BLE001
                     a = b = f'EXC {type(exc).__name__}: {exc}'
                 out[name] = {'t': a, 'repeat_same': a == b}
+            # interference pass: does running item Y first change what item X returns?
+            inter = []
+            if len(sys.argv) > 3:
+                si, sn = map(int, sys.argv[3].split('/'))
+                heavy = [i for i, (nm, _) in enumerate(its)
+                         if nm.startswith(('ic:', 'sim:', 'tax:', 'morphy:', 'validate:', 'export:', 'dump:', 'scan'))
+                         or nm.startswith(('q:lists', 'q:nav', 'q:translate', 'q:module'))]
+                mine = [h for k, h in enumerate(heavy) if k % sn == si]
+                npairs = 0
+                for yi in mine:
+                    yname, yrun = its[yi]
+                    for xname, xrun in its:
+                        try:
+                            yrun()
+                            t = xrun()
+                        except Exception as exc:     # noqa: BLE001
+                            t = f'EXC {type(exc).__name__}: {exc}'
+                        npairs += 1
+                        if t != out[xname]['t']:
+                            inter.append([yname, xname])
+                out['__pairs__'] = {'count': npairs, 'interference': inter[:50]}
             json.dump(out, open(sys.argv[2], 'w'))
             return 0
         from wnmc import e4
